@@ -17,6 +17,34 @@ CHECKS = {
             'engine; shares in [0,1] need run-time signs and are not claimed.',
             'ownership scan + value-graph (rational normal form) invariant proof over the SpectralInformation API',
             'DESIGN.md 4 C01'),
+    'C14': ('other',
+            'Decides the structural obligations behind "no double booking / blocked request changes nothing": the '
+            'scratch OMS never aliases a real bitmap (list-freshness dataflow on every path), spectrum is committed '
+            'only on the pass side of the feasibility guard (CFG dominance), blocked exits clear N/M with a '
+            'NO_SPECTRUM-family reason, the same (N,M) pairs go to every OMS of path+reverse path, slot arithmetic '
+            'and bound guards of assign_spectrum (value graph, integer-normalised comparisons), first-fit dispatch.',
+            'Does not re-prove non-overlap from list semantics or minimality of the chosen slot; Python list '
+            'copy/alias semantics and name-based call resolution inside the module are trusted.',
+            'freshness (alias) dataflow + CFG dominance/must-pass-through + value-graph slot arithmetic',
+            'DESIGN.md 4 C14'),
+    'C15': ('other',
+            'Abstract interpretation in a symbolic list-length / contiguous-run domain (loop handled by an '
+            'automatically found difference invariant): the per-OMS map has exactly the length and index range its '
+            'container demands for every band layout, usable runs sit exactly on the common bands, grid alignment '
+            'keeps slot indices unique and contiguous; converter pair is inverse; OMS walk records every element.',
+            'Assumes non-negative repeat counts and ordered bands; "exactly one OMS per element" needs the chain '
+            'shape of the designed graph and is not decided.',
+            'symbolic list-length and contiguous-run abstract interpretation + value graph + CFG ordering',
+            'DESIGN.md 4 C15'),
+    'C18': ('other',
+            'Table/sibling agreement over source and YANG models: converter/inverse pairing per document kind, twin '
+            'key vocabulary and entry domain, written-back keys consumed by the loaders, PRECISION_DICT against all '
+            '172 leaf names of gnpy-*.yang, every JSON read on the load path goes through load_gnpy_json, alias '
+            'loops build a per-alias entry. Value-level round-trip equality is not decided.',
+            'YANG parsed structurally (typedef/union resolved, no augments); "consumed" = key in a reading position '
+            'in the loader class.',
+            'table / sibling-implementation agreement + YANG schema cross-check + def-use on loader paths',
+            'DESIGN.md 4 C18'),
 }
 
 NOT_APPLICABLE = {}
